@@ -27,6 +27,9 @@ import (
 const (
 	// Maximum number of symlinks in a path (MAXSYMLINKS of the Linux kernel).
 	slCountMax = 40
+
+	// maxFileSize is the maximum size of a file: the Go runtime can't allocate a larger slice.
+	maxFileSize = 1 << 47
 )
 
 // MemIOFS implements a memory file system using the avfs.IOFS interface.
